@@ -6,7 +6,8 @@ RULE = ("E <method> <arg>: one Encoder method call on the real crate vs the extr
         "encoder enc_pref of Spec/Cbor.v. Exhaustive: all u8, i8, u16, i16 arguments and all 256 simple values; boundary-dense "
         "(every 2^k+-3) plus seeded random arguments for the 32/64-bit methods, Int, char, tag/array/map heads; byte/text strings of "
         "lengths 0,1,23,24,255,256,65535,65536 and random. EBLK: FNV-1a hashes over the outputs of one method on a block of consecutive arguments (quick: 2^16-blocks around every width boundary; thorough: all 2^32 u32 arguments and 2^28 stratified i32 / f32 arguments). EIT: ArrayIter/MapIter over iterators with exact, unbounded, lower-bound-only and upper-bound-only size hints. ES: random forests (depth <= 3, definite and indefinite containers, chunked strings, tags) rendered as balanced Encoder call sequences, expectation = the generator's own reference serialiser. A case is non-trivial when the argument needs more than the initial byte "
-        "(argument >= 24 or a payload is present); distinct = distinct case lines.")
+        "(argument >= 24 or a payload is present); distinct = distinct case lines. Known class f2b (open finding F2b): E simple 24..31 and the eight "
+        "ES sequences `array:2;simple:N;u8:1`, where the reference has no well-formed encoding (S=err) and the crate writes exactly f8 N.")
 ASSUMPTIONS = ["the chunk-recording sink sees exactly the bytes any other sink would (C13 covers the sinks)",
                "f16 conversion results are covered by C12; here only the framing of Encoder::f16 is compared with the model"]
 
@@ -95,6 +96,8 @@ def generate(tier, rng):
     for _ in range(20000 if big else 3000):
         forest = [rtree(3) for _ in range(rng.randrange(1, 3))]
         out.append("ES %s =%s" % (";".join(c for t in forest for c in calls(t)), hexs(b"".join(ser_tree(t) for t in forest))))
+    # class f2b inside a balanced sequence: the reference serialiser has no bytes for a forest that contains simple(24..=31) (=err)
+    out += ["ES array:2;simple:%d;u8:1 =err" % n for n in range(24, 32)]
     # spread the (heavy) block cases evenly so that the 16 shards are balanced
     step = max(1, len(out) // (len(eblk) + 1))
     for i, b in enumerate(eblk):
@@ -111,6 +114,18 @@ def nontrivial(line, impl):
     try: v = int(t[2])
     except ValueError: return True
     return v >= 24 or v < -24
+
+def in_known_class(cls, line, impl):
+    """f2b: Encoder::simple(24..=31) writes the two-byte form f8 18..f8 1f, which RFC 8949 3.3 forbids (the reference encoder has
+    no encoding for these values: S=err).  Exactly these eight calls with exactly these bytes; anything else they write is a violation."""
+    t = line.split()
+    if cls != "f2b": return False
+    if t[0] == "E": return t[1] == "simple" and 24 <= int(t[2]) <= 31 and impl == "f8%02x" % int(t[2])
+    if t[0] == "ES" and len(t) == 3 and t[2] == "=err":
+        import re
+        m = re.fullmatch(r"array:2;simple:(\d+);u8:1", t[1])
+        return bool(m) and 24 <= int(m.group(1)) <= 31 and impl.replace("|", "") == "82f8%02x01" % int(m.group(1))
+    return False
 
 def classify(line, impl):
     t = line.split()
